@@ -70,3 +70,28 @@ def insert_inf_rows(rng, dgm, n_inf):
         pos = int(rng.integers(0, len(out) + 1))
         out.insert(pos, [float(rng.random()), np.inf])
     return np.array(out, dtype=float).reshape(-1, 2)
+
+
+def repaired(rng, dgm):
+    """a diagram with the same multiset of births and the same multiset of deaths as dgm but a different (valid) pairing;
+    returns dgm itself when no other valid pairing is found"""
+    D = np.asarray(dgm, float).reshape(-1, 2)
+    n = len(D)
+    if n < 2:
+        return D.copy()
+    b = D[:, 0].copy()
+    for _ in range(20):
+        d = D[rng.permutation(n), 1]
+        if np.all(d >= b) and not np.array_equal(d, D[:, 1]):
+            return np.column_stack([b, d])[rng.permutation(n)]
+    # deterministic fallback: sort births ascending and rotate the deaths among the points whose death clears every birth
+    order = np.argsort(b)
+    bs, ds = b[order], D[order, 1]
+    ok = ds >= bs.max()
+    if ok.sum() >= 2:
+        idx = np.nonzero(ok)[0]
+        ds2 = ds.copy()
+        ds2[idx] = np.roll(ds[idx], 1)
+        if not np.array_equal(ds2, ds):
+            return np.column_stack([bs, ds2])[rng.permutation(n)]
+    return D.copy()
